@@ -206,6 +206,7 @@ func runHarness(prog *ssa.Program, fset0 interface{}, pkg *ssa.Package, name str
 				aborted = fmt.Sprintf("engine error: %v\n%s", r, debug.Stack())
 			}
 		}()
+		e.watchLocks, e.inHook = false, false
 		st := &State{heap: map[int]Value{}, ghost: map[string]Value{}}
 		// package initialisers of the repo packages reachable from this package
 		e.runInits(st, pkg)
